@@ -8,7 +8,7 @@ import hashlib, os, subprocess, sys, glob, time, shutil, fcntl
 import mirparse as mp
 
 REPO = os.environ.get('VERIF_REPO', '/repo')
-CACHE = os.path.join(os.path.dirname(os.path.dirname(os.path.abspath(__file__))), '.cache')
+CACHE = os.environ.get('VERIF_CACHE') or os.path.join(os.path.dirname(os.path.dirname(os.path.abspath(__file__))), '.cache')
 
 def source_hash():
     h = hashlib.sha256()
@@ -69,6 +69,35 @@ def dump(profile):
                 try: os.remove(f)
                 except OSError: pass
         sys.stderr.write(f'[mirfront] dumped {profile} MIR in {time.time() - t:.1f}s -> {out}\n')
+        return out
+    finally:
+        fcntl.flock(lock, fcntl.LOCK_UN)
+
+def expanded():
+    """macro-expanded source of the lib (rustc -Zunpretty=expanded): used only to read the declaration order of enums that
+    exist after macro expansion only (the logos `Jump` tables)"""
+    os.makedirs(CACHE + '/mir', exist_ok=True)
+    key = source_hash()
+    out = f'{CACHE}/mir/{key}.expanded.rs'
+    if os.path.exists(out) and os.path.getsize(out) > 1000: return out
+    lock = open(f'{CACHE}/mir/.lock.dev', 'w')
+    fcntl.flock(lock, fcntl.LOCK_EX)
+    try:
+        if os.path.exists(out) and os.path.getsize(out) > 1000: return out
+        tdir = f'{CACHE}/mir-target'
+        for d in glob.glob(f'{tdir}/debug/.fingerprint/anything-*'):
+            shutil.rmtree(d, ignore_errors=True)
+        env = dict(os.environ); env.update({'CARGO_TARGET_DIR': tdir, 'CARGO_NET_OFFLINE': 'true'}); env.pop('RUSTFLAGS', None)
+        cmd = ['cargo', '+nightly', 'rustc', '--offline', '--manifest-path', REPO + '/Cargo.toml', '--lib', '--', '-Zunpretty=expanded']
+        r = subprocess.run(cmd, env=env, stdout=subprocess.PIPE, stderr=subprocess.PIPE, cwd=REPO)
+        if r.returncode != 0 or len(r.stdout) < 1000:
+            raise BuildError('macro expansion failed:\n' + r.stderr.decode(errors='replace')[-3000:])
+        tmp = out + '.tmp%d' % os.getpid()
+        open(tmp, 'wb').write(r.stdout); os.replace(tmp, out)
+        for f in glob.glob(f'{CACHE}/mir/*.expanded.rs'):
+            if f != out:
+                try: os.remove(f)
+                except OSError: pass
         return out
     finally:
         fcntl.flock(lock, fcntl.LOCK_UN)
